@@ -12,7 +12,7 @@ if [[ "$patch" == -R:* ]]; then
 else
   git -C "$wt" apply "$patch" || { echo "MUTANT $name: patch does not apply"; git -C /repo worktree remove --force "$wt"; exit 2; }
 fi
-( cd "$wt" && env -u GOTOOLCHAIN GOFLAGS=-mod=mod go build ./... ) || { echo "MUTANT $name: does not compile"; git -C /repo worktree remove --force "$wt"; exit 2; }
+( cd "$wt" && env -u GOTOOLCHAIN -u GOSUMDB GOFLAGS=-mod=mod go build ./... ) || { echo "MUTANT $name: does not compile"; git -C /repo worktree remove --force "$wt"; exit 2; }
 out=$(cd /verif && VERIF_REPO="$wt" VERIF_EVIDENCE_DIR=/tmp/mut-evidence VERIF_REPLAY_DIR=/tmp/mut-replays python3 scripts/run_check.py "$prop" "$tier" 2>&1)
 rc=$?
 echo "MUTANT $name prop=$prop tier=$tier rc=$rc"
